@@ -32,7 +32,7 @@ Init == /\ l = 1 /\ model = NoModel /\ stored = {} /\ bad = <<>>
 Ev1 == Trace[l]
 IsEvent(e) == l <= Len(Trace) /\ Trace[l].e = e /\ l' = l + 1
 
-OKs == {"OK_T", "OK_F", "OK_ERR", "OK_ERR_DECIDED", "OK_STALE_PERMITTED","OK_LO", "OK_LO_ERR", "OK_LO_ERR_OTHERCODE", "OK_LO_LIMIT", "OK_LU", "OK_LU_ERR", "OK_EXPAND", "OK_DUMP", "OK_BATCH", "OK_V2_SHAPE_ERR", "OK_V2_DOCUMENTED_DIFF", "OK_V2_SAME_AS_V1",
+OKs == {"OK_T", "OK_F", "OK_ERR", "OK_ERR_DECIDED", "OK_STALE_PERMITTED","OK_LO", "OK_LO_ERR", "OK_LO_ERR_OTHERCODE", "OK_LO_LIMIT", "OK_LU", "OK_LU_ERR", "OK_EXPAND", "OK_DUMP", "OK_BATCH", "OK_EVALS", "OK_V2_SHAPE_ERR", "OK_V2_DOCUMENTED_DIFF", "OK_V2_SAME_AS_V1",
         "SKIP_DEPTH", "SKIP_UNSTRATIFIED"}
 
 Bump(c, cls) == [x \in DOMAIN c \cup {cls} |-> IF x = cls THEN (IF x \in DOMAIN c THEN c[x] ELSE 0) + 1 ELSE c[x]]
@@ -243,6 +243,10 @@ TrV2Check ==
 
 ---------------------------------------------------------------------------
 \* ListObjects (DESIGN D.3)
+\* a list call made through another surface (AuthZEN search, C32) carries the native call's
+\* result for the mapped request: the two must agree (as sets; errors on both or neither)
+NativeSame(ev) == "native" \notin DOMAIN ev \/ (ev.native.err = ev.err /\ (ev.err \/ SeqToSet(ev.native.got) = SeqToSet(ev.got)))
+
 ObjIds(TS, t) == {x.o.id : x \in {x \in TS : x.o.t = t}} \cup
                  {x.u.id : x \in {x \in TS : x.u.t = t /\ x.u.id # "*"}}
 
@@ -286,6 +290,7 @@ TrListObjects ==
   /\ LET c == ListObjectsClass(model, AllTuples(Ev1), Ev1)
          staleOK == "stale" \in DOMAIN Ev1 /\ Ev1.stale = "ok" /\ ~Ev1.err
      IN IF c[1] \notin OKs /\ staleOK THEN Judge("OK_STALE_PERMITTED", c[2], Ev1.eng)
+        ELSE IF c[1] \in OKs /\ ~NativeSame(Ev1) THEN Judge("BAD_DIFFERS_FROM_NATIVE", ToString(Ev1.native), Ev1.eng)
         ELSE Judge(c[1], c[2], Ev1.eng)
   /\ UNCHANGED <<model, stored>>
 
@@ -313,7 +318,27 @@ ListUsersClass(M, TS, ev) ==
 
 TrListUsers ==
   /\ IsEvent("ListUsers")
-  /\ LET c == ListUsersClass(model, AllTuples(Ev1), Ev1) IN Judge(c[1], c[2], Ev1.eng)
+  /\ LET c == ListUsersClass(model, AllTuples(Ev1), Ev1) IN
+     IF c[1] \in OKs /\ ~NativeSame(Ev1) THEN Judge("BAD_DIFFERS_FROM_NATIVE", ToString(Ev1.native), Ev1.eng)
+     ELSE Judge(c[1], c[2], Ev1.eng)
+  /\ UNCHANGED <<model, stored>>
+
+---------------------------------------------------------------------------
+\* AuthZEN batched evaluation (C32): the decisions of one Evaluations call (got) and the
+\* outcomes of the native Check for each mapped item (solos; the items themselves are also
+\* emitted as Check events and judged against the reference).  execute_all answers every
+\* item; deny_on_first_deny / permit_on_first_permit stop after the first item that is
+\* denied (an error counts as a denial) / permitted.
+RECURSIVE UpToFirst(_, _)
+UpToFirst(s, stopAt) ==
+  IF s = <<>> THEN <<>> ELSE IF Head(s) \in stopAt THEN <<Head(s)>> ELSE <<Head(s)>> \o UpToFirst(Tail(s), stopAt)
+EvalsWant(ev) ==
+  CASE ev.sem = "all" -> ev.solos
+    [] ev.sem = "deny_first" -> UpToFirst(ev.solos, {"F", "ERR"})
+    [] ev.sem = "permit_first" -> UpToFirst(ev.solos, {"T"})
+TrEvals ==
+  /\ IsEvent("Evals")
+  /\ Judge(IF Ev1.err THEN "BAD_EVALS_ERR" ELSE IF Ev1.got = EvalsWant(Ev1) THEN "OK_EVALS" ELSE "BAD_EVALS_DIFFER", ToString(EvalsWant(Ev1)), Ev1.eng)
   /\ UNCHANGED <<model, stored>>
 
 ---------------------------------------------------------------------------
@@ -380,7 +405,7 @@ TrEnd ==
   /\ PrintT(<<"VERIF", "END", ToJson([l |-> l, judged |-> judged, skipped |-> skipped, bad |-> bad, counts |-> counts])>>)
   /\ UNCHANGED <<model, stored, bad, counts, judged, skipped>>
 
-Next == TrSetup \/ TrApiWrite \/ TrCheck \/ TrV2Check \/ TrListObjects \/ TrListUsers \/ TrExpand \/ TrStateDump \/ TrBatch \/ TrEnd
+Next == TrSetup \/ TrApiWrite \/ TrCheck \/ TrV2Check \/ TrListObjects \/ TrListUsers \/ TrExpand \/ TrStateDump \/ TrBatch \/ TrEvals \/ TrEnd
 
 Spec == Init /\ [][Next]_vars
 
